@@ -39,6 +39,10 @@ func c01Resolutions(r *rng, o spec.Options) []spec.Resolution {
 
 func (cx *Ctx) runC01() {
 	nSpecs := cx.count(4000, 300000)
+	onlyHuge := os.Getenv("VERIF_C01_ONLY_HUGE") != "" // experiments: the huge-input batch alone
+	if onlyHuge {
+		nSpecs = 0
+	}
 	gc := genCfg{allowRandomGreedy: true, nastyPct: 12, multiPct: 25, bigPct: 6, veryWidePct: 25, extremePct: 6}
 	known := cx.replayKnown()
 	corpusN := cx.runCorpus()
@@ -51,6 +55,52 @@ func (cx *Ctx) runC01() {
 		c := spec.Call{Edges: es, Opts: genOptions(&r, es, gc)}
 		jobs[i] = &spec.Job{ID: i, Kind: "multi", Calls: []spec.Call{c}, Res: c01Resolutions(&r, c.Opts), Budgets: budgetForFam(fam, c.Opts.P4 == "ns", len(es), nodeCount(es))}
 		fams[i] = fam
+	}
+	// a few HUGE but trivially shaped inputs: stars and two-level trees whose single wide layer passes the limits of
+	// 8-, 15- and 16-bit integers (255/256, 32767/32768, 65535/65536) and a few round numbers. Trees have no crossings
+	// and one or two layers, so every phase is linear or close to it: a 32769-leaf star lays out in under a second on
+	// the real runtime. Small random graphs never get near these widths.
+	nHuge := cx.count(16, 100)
+	if onlyHuge {
+		nHuge = 16
+	}
+	for i := 0; i < nHuge; i++ {
+		w := pick(&r, 257, 1000, 4100, 32769, 32769, 65537) + r.intn(3)
+		var es [][]string
+		shape := pick(&r, "star-down", "star-down", "star-up", "tree2")
+		if w > 5000 && shape == "tree2" {
+			// the bilayer crossing counter allocates a |V1| x |V2| matrix by design (documented O(|E|+|V1||V2|)): two
+			// adjacent layers of 16k nodes each are 2 GiB. That is the algorithm's known cost, not what this batch is after.
+			shape = "star-down"
+		}
+		for x := 0; x < w; x++ {
+			switch shape {
+			case "star-down":
+				es = append(es, []string{"hub", fmt.Sprintf("l%d", x)})
+			case "star-up":
+				es = append(es, []string{fmt.Sprintf("l%d", x), "hub"})
+			default:
+				if x < w/2 {
+					es = append(es, []string{"hub", fmt.Sprintf("m%d", x)}, []string{fmt.Sprintf("m%d", x), fmt.Sprintf("l%d", x)})
+				}
+			}
+		}
+		o := spec.Options{P1: pick(&r, "", "dfs"), P2: pick(&r, "longestpath", "longestpath", ""), P4: pick(&r, "", "bk", "bk", "valign", "packright", "sinkcoloring"),
+			P5: pick(&r, "", "straight", "noop", "polyline", "ortho")}
+		if o.P4 == "bk" && r.chance(50) {
+			o.BK = iptr(r.intn(4))
+		}
+		if r.chance(40) {
+			o.FixedSize = &[2]float64{float64(r.between(1, 12) * 10), float64(r.between(1, 6) * 10)}
+		}
+		if w > 5000 && o.P2 == "" {
+			o.P2 = "longestpath" // network simplex layering of a 32k-node star takes seconds on the real runtime; the simulator is 20x slower
+		}
+		c := spec.Call{Edges: es, Opts: o}
+		fam := fmt.Sprintf("huge(%s)", shape)
+		b := budgetForFam(fam, false, len(es), nodeCount(es))
+		jobs = append(jobs, &spec.Job{ID: len(jobs), Kind: "multi", Calls: []spec.Call{c}, Res: []spec.Resolution{{Adv: "identity"}}, Budgets: b})
+		fams = append(fams, fam)
 	}
 	cx.phase("C01: main batch")
 	// one fresh worker process per spec, so that a failure replays exactly
